@@ -158,8 +158,19 @@ func execExtra(p *Pool, o Op, out *Outcome) (handled bool, bad error) {
 	}
 	handled = true
 	switch o.Name {
-	case "NewType": // size signed
-		t, err := acme.NewIntegerSignalType("t", int(a(0)), a(1) == 1)
+	case "NewType": // size signed [kind: 0 integer, 1 decimal, 2 flag (size ignored), 3 custom]
+		var t *acme.SignalType
+		var err error
+		switch a(2) {
+		case 1:
+			t, err = acme.NewDecimalSignalType("t", int(a(0)), a(1) == 1)
+		case 2:
+			t = acme.NewFlagSignalType("t")
+		case 3:
+			t, err = acme.NewCustomSignalType("t", int(a(0)), a(1) == 1, 0, 100, 0.5, 1)
+		default:
+			t, err = acme.NewIntegerSignalType("t", int(a(0)), a(1) == 1)
+		}
 		out.Err = err
 		if err == nil {
 			h := p.add(&Ent{K: KType, Type: t})
@@ -239,6 +250,14 @@ func execExtra(p *Pool, o Op, out *Outcome) (handled bool, bad error) {
 			}
 		}
 
+	case "MsgUpdateSize":
+		if m := p.msg(a(0)); need(m != nil) {
+			out.Err = m.UpdateSizeByte(int(a(1)))
+		}
+	case "BusSetType":
+		if b := p.bus(a(0)); need(b != nil) {
+			b.SetType(acme.BusType(a(1)))
+		}
 	case "CloneEval":
 		// model operation EvalClone: a new value with the same name and index
 		if v := p.eval(a(0)); need(v != nil) {
@@ -356,8 +375,8 @@ func init() {
 		"StdSetType": "StandardSignal.SetType", "StdSetUnit": "StandardSignal.SetUnit", "EnumSetEnum": "EnumSignal.SetEnum",
 		"Assign": "AssignAttribute", "RemoveAssign": "RemoveAttributeAssignment", "RemoveAllAssign": "RemoveAllAttributeAssignments",
 		"BusSetBuilder": "Bus.SetCANIDBuilder", "NewStdSignal": "NewStandardSignal", "NewEnumSignal": "NewEnumSignal",
-		"NewMuxSignal": "NewMultiplexerSignal", "NewType": "NewIntegerSignalType",
-		"CloneEnum": "SignalEnum.Clone", "CloneEval": "SignalEnumValue.Clone", "CloneType": "SignalType.Clone", "CloneUnit": "SignalUnit.Clone",
+		"NewMuxSignal": "NewMultiplexerSignal", "NewType": "NewSignalType",
+		"MsgUpdateSize": "Message.UpdateSizeByte", "BusSetType": "Bus.SetType", "CloneEnum": "SignalEnum.Clone", "CloneEval": "SignalEnumValue.Clone", "CloneType": "SignalType.Clone", "CloneUnit": "SignalUnit.Clone",
 		"CloneAttr": "Attribute.Clone",
 	} {
 		goName[k] = v
@@ -644,7 +663,7 @@ func extraCheckL1(p *Pool, e *Ent) []string {
 func infallibleExtra(name string) bool {
 	switch name {
 	case "NewUnit", "NewAttrString", "NewBuilder", "CloneType", "CloneUnit", "MsgRemoveAllSignals", "MuxClearAll", "StdSetUnit",
-		"RemoveAllAssign", "BusSetBuilder", "NewAttrInt", "NewAttrFloat", "NewAttrEnum", "CloneAttr", "CloneEval":
+		"RemoveAllAssign", "BusSetBuilder", "NewAttrInt", "NewAttrFloat", "NewAttrEnum", "CloneAttr", "CloneEval", "BusSetType":
 		return true
 	}
 	return false
@@ -835,6 +854,32 @@ func extraTemplates() []template {
 			}
 			return mk("BusSetBuilder", g.r.pick(p.of(KBus)), b)
 		}},
+		{"MsgUpdateSize", 4, func(g *Gen, p *Pool) (Op, bool) {
+			sizes := []int64{-1, 0, 1, 2, 4, 8, 8, 9, 12, 64, 1 << 61}
+			return mk("MsgUpdateSize", g.r.pick(p.of(KMsg)), sizes[g.r.below(len(sizes))])
+		}},
+		{"BusSetType", 2, func(g *Gen, p *Pool) (Op, bool) {
+			t := int64(0)
+			if g.r.chance(35) {
+				t = int64(1 + g.r.below(2))
+			}
+			return mk("BusSetType", g.r.pick(p.of(KBus)), t)
+		}},
+		{"NewType", 2, func(g *Gen, p *Pool) (Op, bool) {
+			if len(p.of(KType)) >= 10 && !g.r.chance(30) {
+				return none, false
+			}
+			sizes := []int64{-3, -1, 0, 0, 1, 2, 8, 16, 64}
+			sz := sizes[g.r.below(len(sizes))]
+			if len(p.of(KType)) >= 10 && sz > 0 {
+				sz = 0 // the pool is full: only the refused constructor calls
+			}
+			k := int64(g.r.below(4))
+			if k == 2 && len(p.of(KType)) >= 10 {
+				k = 0
+			}
+			return mk("NewType", sz, int64(g.r.below(2)), k)
+		}},
 		{"CloneEnum", 6, func(g *Gen, p *Pool) (Op, bool) {
 			if len(p.of(KEnum)) >= 6 || len(p.of(KEval)) >= 26 {
 				return none, false
@@ -972,9 +1017,51 @@ func expectExtra(p *Pool, o Op) Expect {
 		return 0
 	}
 	switch o.Name {
+	case "MsgUpdateSize":
+		m := p.msg(a(0))
+		n := a(1)
+		switch {
+		case n < 0:
+			return one("Negative MessageSize")
+		case int64(m.SizeByte()) == n:
+			return Expect{}
+		case n > (1<<60)-1:
+			return one("TooBig MessageSize")
+		}
+		if ni := m.SenderNodeInterface(); ni != nil && ni.ParentBus() != nil {
+			if b := ni.ParentBus(); b.Type() != acme.BusTypeCAN2A || n > 8 {
+				return one("TooBig MessageSize")
+			}
+		}
+		// the payload must keep its last signal: judged on the contents
+		last := 0
+		for _, sg := range m.Signals() {
+			if e := sg.GetRelativeStartPos() + sg.GetSize(); e > last {
+				last = e
+			}
+		}
+		if n*8 < int64(m.SizeByte()*8) && int64(last) > n*8 {
+			return one("TooSmall MessageSize")
+		}
+	case "BuilderInsertOperation": // builder kind from length index
+		if b := p.bld(a(0)); b != nil {
+			from, l, idx := a(2), a(3), a(4)
+			if from < 0 || from > 31 || l < 0 || l > 32-from || idx < 0 || idx > int64(len(b.Operations())) {
+				return one("OutOfBounds Argument")
+			}
+		}
+	case "BuilderRemoveOperation":
+		if b := p.bld(a(0)); b != nil {
+			if a(1) < 0 || a(1) >= int64(len(b.Operations())) {
+				return one("OutOfBounds Argument")
+			}
+		}
 	case "NewType":
-		if a(0) <= 0 {
-			return Expect{Refusals: []string{"Negative Argument", "Zero Argument"}}
+		if a(2) != 2 && a(0) < 0 {
+			return one("Negative Argument")
+		}
+		if a(2) != 2 && a(0) == 0 {
+			return one("Zero Argument")
 		}
 	case "NewStdSignal":
 		if p.typ(a(1)) == nil {
@@ -1234,6 +1321,11 @@ func fitsOracle(o Op, cause string) (int64, bool) {
 	switch o.Name {
 	case "EnumAddValue", "EvalUpdateIndex", "StdSetType", "EnumSetEnum", "MsgAppendSignal", "MsgInsertSignal", "MuxInsertSignal":
 		if cause == "Layout" {
+			return 0, true
+		}
+		return 1, true
+	case "MsgUpdateSize": // layout.resize refuses with ErrTooSmall: the last signal would no longer fit
+		if cause == "TooSmall" {
 			return 0, true
 		}
 		return 1, true
